@@ -207,16 +207,23 @@ func c13EndToEnd(r *hx.Run, rnd *rand.Rand, n int) {
 		minLen int
 		filter string
 		store  bool // tiny LRU over a store: entries are evicted and reloaded from their persisted record
+		// fromMin/fromFilter (reloaded == true): the server was started with these settings and then
+		// reconfigured in place to min/filter by a reload
+		reloaded   bool
+		fromMin    string
+		fromFilter string
 	}
 	type keyInfo struct {
 		uri       string
 		size      int
 		ct, kind  string
+		upEnc     string // the upstream itself answers gzip or br encoded
 		cacheable bool
 		rawOrig   []byte
 		fetch     int64
 	}
-	specs := []srvSpec{{"", 1024, "", false}, {"100", 100, "", false}, {"2kb", 2000, "text|vnd\\.custom", false}, {"2kb", 2000, "text|vnd\\.custom", true}, {"", 1024, "", true}}
+	specs := []srvSpec{{min: "", minLen: 1024}, {min: "100", minLen: 100}, {min: "2kb", minLen: 2000, filter: "text|vnd\\.custom"}, {min: "2kb", minLen: 2000, filter: "text|vnd\\.custom", store: true}, {min: "", minLen: 1024, store: true},
+		{min: "", minLen: 1024, reloaded: true, fromMin: "2kb", fromFilter: "text|vnd\\.custom"}, {min: "100", minLen: 100, filter: "json", reloaded: true}}
 	for si, sp := range specs {
 		sc := hx.SimpleCfg{CacheName: fmt.Sprintf("c13_%d", si), MinLength: sp.min, Filter: sp.filter}
 		if sp.store {
@@ -224,10 +231,21 @@ func c13EndToEnd(r *hx.Run, rnd *rand.Rand, n int) {
 			sc.Store = fmt.Sprintf("mem://c13/%d/%d", r.Seed, si)
 			hx.NewMemStore(sc.Store)
 		}
+		if sp.reloaded {
+			sc.MinLength, sc.Filter = sp.fromMin, sp.fromFilter
+		}
 		w := newSimpleWorld(r, sc, 1, true)
+		if sp.reloaded {
+			// the running server gets its final threshold and filter through a reload
+			w.Cl.Get(w.Addr, "c13.example", fmt.Sprintf("/c13/%d/warm", si))
+			w.Cfg.Servers[0].CompressMinLength, w.Cfg.Servers[0].CompressContentTypeFilter = sp.min, sp.filter
+			w.apply(r)
+			r.Add("e2e_servers_reconfigured_by_reload", 1)
+		}
 		var keys []*keyInfo
+		fetchAccept := map[int64]string{} // fetch id -> Accept-Encoding of the request that fetched it
 		var size int
-		var ct, kind string
+		var ct, kind, upEnc string
 		var cacheable bool
 		w.Pts = hx.InstallPoints(r.Seed)
 		var script func(f *hx.Fetch) *hx.Reply
@@ -238,7 +256,14 @@ func c13EndToEnd(r *hx.Run, rnd *rand.Rand, n int) {
 			} else {
 				h = append(h, [2]string{"Cache-Control", "no-cache"})
 			}
-			return &hx.Reply{Status: 200, Header: h, Body: hx.PRNGBytes(f.ID, size, kind)}
+			raw := hx.PRNGBytes(f.ID, size, kind)
+			switch upEnc {
+			case "gzip":
+				return &hx.Reply{Status: 200, Header: h, Body: hx.GzipBytes(raw, 6), Orig: raw, Encoding: "gzip"}
+			case "br":
+				return &hx.Reply{Status: 200, Header: h, Body: hx.BrotliBytes(raw, 5), Orig: raw, Encoding: "br"}
+			}
+			return &hx.Reply{Status: 200, Header: h, Body: raw}
 		}
 		w.Farm.SetScript(script)
 		filter := regexp.MustCompile(`text|javascript|json|wasm|xml|font`)
@@ -251,9 +276,13 @@ func c13EndToEnd(r *hx.Run, rnd *rand.Rand, n int) {
 			ct = []string{"text/html", "application/json", "image/png", "application/vnd.custom"}[rnd.Intn(4)]
 			kind = []string{"text", "runs", "rand"}[rnd.Intn(3)]
 			cacheable = rnd.Intn(3) != 0
+			upEnc = []string{"", "", "", "gzip", "br"}[rnd.Intn(5)]
 			uri := fmt.Sprintf("/c13/%d/%d", si, i)
 			typeMatch := filter.MatchString(ct)
-			ki := &keyInfo{uri: uri, size: size, ct: ct, kind: kind, cacheable: cacheable}
+			ki := &keyInfo{uri: uri, size: size, ct: ct, kind: kind, cacheable: cacheable, upEnc: upEnc}
+			if upEnc != "" {
+				r.Add("e2e_keys_whose_upstream_answers_encoded", 1)
+			}
 			keys = append(keys, ki)
 			if cacheable && size > sp.minLen && typeMatch && i%3 == 0 {
 				// a burst on the cold key: the response is compressed once when stored, not per coalesced request
@@ -290,7 +319,7 @@ func c13EndToEnd(r *hx.Run, rnd *rand.Rand, n int) {
 			}
 			probe := func(ki *keyInfo, step int, phase string) bool {
 				// the origin answers a (re)fetch of this key with the key's own parameters
-				size, ct, kind, cacheable = ki.size, ki.ct, ki.kind, ki.cacheable
+				size, ct, kind, cacheable, upEnc = ki.size, ki.ct, ki.kind, ki.cacheable, ki.upEnc
 				uri, typeMatch := ki.uri, filter.MatchString(ki.ct)
 				accept := c13Accepts[rnd.Intn(len(c13Accepts))]
 				gz0, br0 := compress.VerifCounts()
@@ -313,6 +342,9 @@ func c13EndToEnd(r *hx.Run, rnd *rand.Rand, n int) {
 					return false
 				}
 				orig := f.Reply.Body
+				if f.Reply.Orig != nil {
+					orig = f.Reply.Orig
+				}
 				if ki.rawOrig == nil || f.ID != ki.fetch {
 					ki.rawOrig, ki.fetch = orig, f.ID
 				}
@@ -320,10 +352,33 @@ func c13EndToEnd(r *hx.Run, rnd *rand.Rand, n int) {
 					r.Violate("negotiated_body_wrong", nil, "decoded body differs from the upstream body", res.Brief(), cs)
 					return false
 				}
-				compressible := size > sp.minLen && typeMatch
-				storedVariants := cacheable && compressible // compressed when stored, raw dropped
-				want := c13Expected(accept, storedVariants, storedVariants, []bool{size <= sp.minLen}, typeMatch)
-				if storedVariants && res.Label == "hit" {
+				// the size pike can see: the raw body, or - when the upstream itself answered encoded - only
+				// the encoded bytes. Where the two fall on different sides of the threshold both readings of
+				// "body size against the minimum compress length" are accepted.
+				// which request fetched this response: a fetching request without any Accept-Encoding header
+				// makes Go's transport ask for gzip on its own and undo it, so pike receives identity
+				if _, seen := fetchAccept[res.FetchID]; !seen {
+					fetchAccept[res.FetchID] = accept
+				}
+				effEnc := ki.upEnc
+				if effEnc == "gzip" && fetchAccept[res.FetchID] == "" {
+					effEnc = ""
+				}
+				visible := size
+				if effEnc != "" {
+					visible = len(f.Reply.Body)
+				}
+				want := map[string]bool{}
+				for _, small := range []bool{size <= sp.minLen, visible <= sp.minLen} {
+					stored := cacheable && !small && typeMatch // compressed when stored, raw dropped
+					// a variant the upstream delivered is kept as it is, whatever the size and type
+					for k := range c13Expected(accept, stored || effEnc == "br", stored || effEnc == "gzip", []bool{small}, typeMatch) {
+						want[k] = true
+					}
+				}
+				compressible := size > sp.minLen && visible > sp.minLen && typeMatch
+				storedVariants := cacheable && compressible
+				if cacheable && typeMatch && size > sp.minLen && res.Label == "hit" {
 					// only compressed variants are visible: they may all be <= min although the raw body is not
 					gzLen := len(hx.GzipBytes(orig, 9))
 					if gzLen <= sp.minLen {
@@ -346,7 +401,7 @@ func c13EndToEnd(r *hx.Run, rnd *rand.Rand, n int) {
 						r.Violate("recompressed_per_request", nil, fmt.Sprintf("hit on a stored compressible entry invoked the compressor (gzip +%d, br +%d)", gz1-gz0, br1-br0), res.Brief(), cs)
 						return false
 					}
-					if res.CE == "gzip" {
+					if res.CE == "gzip" && effEnc != "gzip" {
 						exp, _ := best.Gzip(ki.rawOrig)
 						gzN, brN := compress.VerifCounts()
 						_, _ = gzN, brN
@@ -356,7 +411,7 @@ func c13EndToEnd(r *hx.Run, rnd *rand.Rand, n int) {
 						}
 						r.Add("e2e_best_compression_profile_checks", 1)
 					}
-					if res.CE == "br" {
+					if res.CE == "br" && effEnc != "br" {
 						exp, _ := best.Brotli(ki.rawOrig)
 						if !bytes.Equal(res.Raw, exp) {
 							r.Violate("stored_variant_not_best_compression", nil, "the stored br variant differs from the best-compression profile's output", res.Brief(), cs)
@@ -389,7 +444,7 @@ func c13EndToEnd(r *hx.Run, rnd *rand.Rand, n int) {
 						break
 					}
 				}
-				size, ct, kind, cacheable = ki.size, ki.ct, ki.kind, ki.cacheable
+				size, ct, kind, cacheable, upEnc = ki.size, ki.ct, ki.kind, ki.cacheable, ki.upEnc
 			}
 			r.Distinct(fmt.Sprintf("e2e %d %d %s %v", si, size, ct, cacheable))
 		}
@@ -398,7 +453,7 @@ func c13EndToEnd(r *hx.Run, rnd *rand.Rand, n int) {
 }
 
 func c13(r *hx.Run) {
-	r.Rule = "exhaustive table at the Fill level: accept (14 values incl. tokens containing 'gzip') x stored subset of raw/gzip/br (7) x raw size {min-1,min,min+1,min+4000} x min {1024,100} x filter {default,custom} x 6 content types x {direct, after Cacheable()}, N random bodies per cell, against the table of the statement/docs (where raw and visible lengths straddle the threshold both outcomes are accepted); then end-to-end through servers with default/configured thresholds and filters (two of them with an LRU of 8 entries over a store, earlier keys revisited after eviction so that they are served from their reloaded records): text, repetitive and incompressible bodies, 4 requests per key with random Accept-Encoding, compressor call counters around every hit, stored variants compared with the best-compression profile's output. Non-trivial/distinct = table cell / e2e key class."
+	r.Rule = "exhaustive table at the Fill level: accept (14 values incl. tokens containing 'gzip') x stored subset of raw/gzip/br (7) x raw size {min-1,min,min+1,min+4000} x min {1024,100} x filter {default,custom} x 6 content types x {direct, after Cacheable()}, N random bodies per cell, against the table of the statement/docs (where raw and visible lengths straddle the threshold both outcomes are accepted); then end-to-end through servers with default/configured thresholds and filters (two of them with an LRU of 8 entries over a store, earlier keys revisited after eviction so that they are served from their reloaded records; two that received their threshold and filter - set, changed or removed - through a reload of the running server; upstreams that answer gzip or br encoded themselves): text, repetitive and incompressible bodies, 4 requests per key with random Accept-Encoding, compressor call counters around every hit, stored variants compared with the best-compression profile's output. Non-trivial/distinct = table cell / e2e key class."
 	r.Assume = []string{"Accept-Encoding is a plain list of codings (no q-values)", "gzip/brotli encoders are deterministic (same level => same bytes)"}
 	rnd := rand.New(rand.NewSource(r.Seed))
 	c13Table(r, rnd, r.Pick(1, 20))
